@@ -188,4 +188,160 @@ theorem gather_spec (f : Nat) :
       · simp [gather]
       · intro p; exact adm_cons_of_not_wordNode p (by simp [wordNode])
 
+/-! ## `longestAdmissible` -/
+
+theorem foldl_max_ge (l : List Nat) (a : Nat) : a ≤ l.foldl max a ∧ ∀ m ∈ l, m ≤ l.foldl max a := by
+  induction l generalizing a with
+  | nil => simp
+  | cons b l ih =>
+    simp only [List.foldl_cons, List.mem_cons, forall_eq_or_imp]
+    have := ih (max a b)
+    refine ⟨by omega, by omega, this.2⟩
+
+theorem foldl_max_le (l : List Nat) (a n : Nat) (ha : a ≤ n) (h : ∀ m ∈ l, m ≤ n) : l.foldl max a ≤ n := by
+  induction l generalizing a with
+  | nil => simpa
+  | cons b l ih =>
+    simp only [List.foldl_cons]
+    apply ih
+    · have := h b (by simp); omega
+    · intro m hm; exact h m (by simp [hm])
+
+theorem longestAdmissible_eq {f : Nat} {l : List Item} {m : Nat} (hm : m ≤ l.length)
+    (hadm : adm f 0 (l.take m) = true)
+    (hmax : ∀ m', m < m' → m' ≤ l.length → adm f 0 (l.take m') = false) :
+    longestAdmissible f l = m := by
+  unfold longestAdmissible
+  apply Nat.le_antisymm
+  · apply foldl_max_le _ _ _ (by omega)
+    intro k hk
+    simp only [List.mem_filter, List.mem_range, admissible_eq] at hk
+    by_cases hkm : k ≤ m
+    · exact hkm
+    · have := hmax k (by omega) (by omega)
+      simp [this] at hk
+  · apply (foldl_max_ge _ 0).2
+    simp only [List.mem_filter, List.mem_range, admissible_eq]
+    exact ⟨by omega, hadm⟩
+
+theorem gather_eq (f : Nat) (rest : List Item) :
+    gather f rest [] 0 = (lettersL (rest.take (longestAdmissible f rest)), longestAdmissible f rest) ∧
+      longestAdmissible f rest ≤ rest.length ∧
+      (rest.take (longestAdmissible f rest)).all (wordNode f) = true := by
+  obtain ⟨m, hm, hg, hadm, hmax⟩ := gather_spec f rest [] 0 (by simp)
+  have := longestAdmissible_eq hm (by simpa using hadm) (by simpa using hmax)
+  rw [this]
+  refine ⟨by simpa using hg, hm, ?_⟩
+  simp only [adm, Bool.and_eq_true] at hadm
+  exact hadm.1
+
+/-! ## One clause per glue node -/
+
+/-- The specification restricted to the glue nodes from index `i` on (`suf` = the list from there). -/
+def specFrom (i : Nat) (suf : List Item) : List Word :=
+  (List.range suf.length).filterMap (fun d => specAt (i + d) (suf.drop d))
+
+theorem specFrom_nil (i : Nat) : specFrom i [] = [] := rfl
+
+theorem specFrom_cons (i : Nat) (x : Item) (xs : List Item) :
+    specFrom i (x :: xs) = (specAt i (x :: xs)).toList ++ specFrom (i + 1) xs := by
+  simp only [specFrom, List.length_cons, List.range_succ_eq_map, List.filterMap_cons, List.filterMap_map]
+  have : ((fun d => specAt (i + d) (List.drop d (x :: xs))) ∘ Nat.succ) = (fun d => specAt (i + 1 + d) (List.drop d xs)) := by
+    funext d
+    simp only [Function.comp, Nat.succ_eq_add_one, List.drop_succ_cons]
+    congr 1; omega
+  rw [this]
+  cases h : specAt (i + 0) (List.drop 0 (x :: xs)) with
+  | none => simp at h; simp [h]
+  | some w => simp at h; simp [h]
+
+theorem specAt_not_glue (i : Nat) (x : Item) (xs : List Item) (h : x.isGlue = false) :
+    specAt i (x :: xs) = none := by simp [specAt, h]
+
+/-- Stepping over `k` nodes none of which is a glue does not lose a word. -/
+theorem specFrom_skip (k : Nat) : ∀ (i : Nat) (xs : List Item), k ≤ xs.length →
+    (xs.take k).all (fun x => !x.isGlue) = true → specFrom i xs = specFrom (i + k) (xs.drop k) := by
+  induction k with
+  | zero => intro i xs _ _; simp
+  | succ k ih =>
+    intro i xs hk hall
+    cases xs with
+    | nil => simp at hk
+    | cons x xs =>
+      simp only [List.take_succ_cons, List.all_cons, Bool.and_eq_true, Bool.not_eq_true'] at hall
+      rw [specFrom_cons, specAt_not_glue i x xs hall.1, List.drop_succ_cons]
+      simp only [Option.toList_none, List.nil_append]
+      rw [ih (i + 1) xs (by simpa using hk) hall.2]
+      congr 1; omega
+
+theorem all_not_glue_of_skippable (l : List Item) (h : l.all skippable = true) :
+    l.all (fun x => !x.isGlue) = true := by
+  simp only [List.all_eq_true] at h ⊢
+  intro x hx; simp [not_glue_of_skippable (h x hx)]
+
+theorem all_not_glue_of_wordNode (f : Nat) (l : List Item) (h : l.all (wordNode f) = true) :
+    l.all (fun x => !x.isGlue) = true := by
+  simp only [List.all_eq_true] at h ⊢
+  intro x hx; simp [not_glue_of_wordNode (h x hx)]
+
+theorem takeWhile_drop (p : Item → Bool) (xs : List Item) :
+    xs.drop (xs.takeWhile p).length = xs.dropWhile p ∧ xs.take (xs.takeWhile p).length = xs.takeWhile p := by
+  induction xs with
+  | nil => simp
+  | cons x xs ih =>
+    cases h : p x <;> simp [h, ih]
+
+/-- The loop of the fixed code finds exactly the word of every glue node. -/
+theorem scan_eq_specFrom : ∀ (fuel i : Nat) (suf : List Item), suf.length < fuel →
+    scan false fuel i suf = specFrom i suf := by
+  intro fuel
+  induction fuel with
+  | zero => intro i suf h; omega
+  | succ fuel ih =>
+    intro i suf hlen
+    cases suf with
+    | nil => simp [scan, specFrom_nil]
+    | cons x xs =>
+      have hxs : xs.length < fuel := by simpa using hlen
+      rw [specFrom_cons]
+      by_cases hg : x.isGlue = true
+      · -- a glue node: one search
+        have hk := takeWhile_drop skippable xs
+        have hkl : (xs.takeWhile skippable).length ≤ xs.length := by
+          have := congrArg List.length hk.2
+          simp only [List.length_take] at this
+          omega
+        have hskip : specFrom (i + 1) xs
+            = specFrom (i + 1 + (xs.takeWhile skippable).length) (xs.dropWhile skippable) := by
+          rw [specFrom_skip (xs.takeWhile skippable).length (i + 1) xs hkl
+            (by rw [hk.2]; exact all_not_glue_of_skippable _ (by simp)), hk.1]
+        have hrest : (xs.dropWhile skippable).length < fuel := by
+          rw [← hk.1]; simp; omega
+        simp only [scan, hg, Bool.not_true, Bool.false_eq_true, if_false, seek_spec, Nat.zero_add, hk.1]
+        simp only [specAt, hg, Bool.not_true, Bool.false_eq_true, if_false]
+        cases hf : (xs.dropWhile skippable).head? >>= startFont with
+        | none =>
+          simp only [Option.toList_none, List.nil_append]
+          rw [ih _ _ hrest, hskip]
+        | some f =>
+          obtain ⟨hgath, hn, hall⟩ := gather_eq f (xs.dropWhile skippable)
+          simp only [hgath, terminatorOk_spec]
+          by_cases he : (lettersL ((xs.dropWhile skippable).take (longestAdmissible f (xs.dropWhile skippable)))).isEmpty = true
+          · simp only [he, if_true, Option.toList_none, List.nil_append]
+            rw [ih _ _ hrest, hskip]
+          · simp only [he, Bool.false_eq_true, if_false]
+            by_cases ht : ((((xs.dropWhile skippable).drop (longestAdmissible f (xs.dropWhile skippable))).dropWhile charLigKern).head?.map forbids).getD false = true
+            · simp only [ht, Bool.not_true, Bool.not_false, if_true, Option.toList_none, List.nil_append]
+              rw [ih _ _ hrest, hskip]
+            · simp only [ht, Bool.not_false, Bool.not_true, Bool.false_eq_true, if_false, Option.toList_some,
+                List.singleton_append, List.cons.injEq, true_and]
+              rw [ih _ _ (by simp; omega), hskip]
+              rw [specFrom_skip (longestAdmissible f (xs.dropWhile skippable)) _ (xs.dropWhile skippable) hn
+                (all_not_glue_of_wordNode f _ hall)]
+      · -- not a glue: next node
+        have hg' : x.isGlue = false := by simpa using hg
+        rw [specAt_not_glue i x xs hg']
+        simp only [scan, hg', Bool.not_false, if_true, Option.toList_none, List.nil_append]
+        exact ih (i + 1) xs hxs
+
 end C14
